@@ -198,6 +198,31 @@ def violation_key(op, klass, refs=None):
 def confirm(replay, verbose=False):
     mc = mcx.Mc()
     try:
+        if replay["kind"] == "defs":
+            from props import c15
+            shared, doms = c15.def_domains()
+            old_mc = mcx._worker_mc
+            mcx._worker_mc = mc
+            try:
+                v, _ = work_defs((replay["a"], replay["b"], shared, doms))
+            finally:
+                mcx._worker_mc = old_mc
+            v = [x for x in v if x[2]["label"] == replay["label"]]
+            if verbose:
+                for k, w, _ in v:
+                    print(" ", k, "—", w)
+            return {k for k, _, _ in v}
+        if replay["kind"] == "la":
+            old_mc = mcx._worker_mc
+            mcx._worker_mc = mc
+            try:
+                v, _ = work_la([replay["ops"]])
+            finally:
+                mcx._worker_mc = old_mc
+            if verbose:
+                for k, w, _ in v:
+                    print(" ", k, "—", w)
+            return {k for k, _, _ in v}
         if replay["kind"] == "sep":
             old_mc = mcx._worker_mc
             mcx._worker_mc = mc
@@ -394,7 +419,82 @@ def opname_sep(op):
     return op[0]
 
 
+# ---------------------------------------------------------------------------------------------
+# Language=Auto / LanguageAuto mini-family (the language an AT announces while the user preference is "Auto")
+
+LA_OPS_QUICK = [["pref", "LanguageAuto", "es"], ["pref", "Language", "en"], ["pref", "Language", "Auto"]]
+LA_OPS_MORE = [["pref", "LanguageAuto", "sv"], ["pref", "Language", "es"]]
+LA_EXPR = EXPRS[1]
+
+
+def la_reference(h):
+    """canonical switch-free way into the model state reached by the preference writes of h"""
+    lang, before_auto, la = "Auto", None, None         # the shipped prefs.yaml has Language: Auto
+    for op in h:
+        if op[0] != "pref":
+            continue
+        if op[1] == "Language":
+            if op[2] == "Auto":
+                if lang != "Auto":
+                    before_auto, la = lang, None
+            else:
+                before_auto, la = None, None
+            lang = op[2]
+        elif op[1] == "LanguageAuto" and lang == "Auto":
+            la = op[2]                                   # (refused while Language is not Auto)
+    if lang != "Auto":
+        return [["pref", "Language", lang]]
+    if la is not None:
+        return [["pref", "Language", "Auto"], ["pref", "LanguageAuto", la]]
+    return ([["pref", "Language", before_auto]] if before_auto else []) + [["pref", "Language", "Auto"]]
+
+
+def la_histories(tier):
+    ops = LA_OPS_QUICK + (LA_OPS_MORE if tier == "thorough" else [])
+    maxlen = 7
+    out = []
+    for n in range(1, maxlen + 1):
+        for seq in itertools.product(range(len(ops)), repeat=n):
+            out.append([ops[i] for i in seq] + [["mathml", LA_EXPR], ["speech"]])
+    return out
+
+
+def work_la(hists):
+    mc = mcx.worker_mc()
+    setup = [["rules_dir", mcx.RULES], ["pref", "TTS", "none"]]
+    refs = [la_reference(h) + h[-2:] for h in hists]
+    _, got = mc.run_cases(setup, hists, fresh=True)
+    uniq = sorted({json.dumps(r, ensure_ascii=False) for r in refs})
+    _, rr = mc.run_cases(setup, [json.loads(u) for u in uniq], fresh=True)
+    rmap = {u: (obs_norm(r[-2]), obs_norm(r[-1])) for u, r in zip(uniq, rr)}
+    viol = []
+    for h, a, r in zip(hists, got, refs):
+        x = (obs_norm(a[-2]), obs_norm(a[-1]))
+        y = rmap[json.dumps(r, ensure_ascii=False)]
+        if x != y:
+            k = 0 if x[0] != y[0] else 1
+            viol.append((f"C10|history|language-auto|{'canonical' if k == 0 else 'speech'}|state:{'+'.join(o[1] + '=' + o[2] for o in r[:-2])}",
+                         f"call history [{', '.join(o[1] + '=' + o[2] for o in h[:-2])}, set_mathml, speech]: {'canonical MathML' if k == 0 else 'speech'} is {short(x[k], 130)} but "
+                         f"[{', '.join(o[1] + '=' + o[2] for o in r[:-2])}] in a fresh session gives {short(y[k], 130)}", {"kind": "la", "ops": h}))
+    return viol, len(hists)
+
+
+def work_defs(item):
+    """A -> B in one session over the corpus derived from the definitions files (the family is C15's; here its oracle is C10's own statement)"""
+    from props import c15
+    viol, counts, *_ = c15.work_defpair(item)
+    out = []
+    for k, w, rp in viol:
+        parts = k.split("|")               # C15|walk-differs|<getter>|<B>|after:<kind>
+        out.append((f"C10|history|definitions|{parts[2]}|{parts[3]}|{parts[4]}", w, dict(rp, kind="defs")))
+    return out, counts["defpair_comparisons"]
+
+
 def _dispatch(job):
+    if job[0] == "F":
+        return ("F",) + work_defs(job[1:])
+    if job[0] == "L":
+        return ("L",) + work_la(job[1])
     if job[0] == "P":
         return ("P",) + work_sep(job[1])
     if job[0] == "S":
@@ -606,6 +706,26 @@ def main(tier):
         run.merge_violations(viol)
         run.count("evaluations", n)
         transitions += n * 4
+    lh = la_histories(tier)
+    run.count("language_auto_histories", len(lh))
+    for out in mcx.pmap(_dispatch, [("L", lh[i:i + 60]) for i in range(0, len(lh), 60)]):
+        _, viol, n = out
+        run.merge_violations(viol)
+        run.count("evaluations", n)
+        transitions += n * 5
+    from props import c15
+    shared, doms = c15.def_domains()
+    if tier == "quick":
+        pairs = [(a, b_) for a, b_ in (("L:vi", "L:en"), ("L:en", "L:vi"), ("L:vi", "L:sv"), ("L:fi", "L:es"), ("L:en", "L:id"), ("B:ASCIIMath", "B:Nemeth"), ("B:Nemeth", "B:ASCIIMath"),
+                                       ("B:UEB", "B:CMU")) if a in doms and b_ in doms]
+    else:
+        pairs = [(a, b_) for a in doms for b_ in doms if a != b_]
+    run.count("definition_pairs", len(pairs))
+    for out in mcx.pmap(_dispatch, [("F", a, b_, shared, doms) for a, b_ in pairs]):
+        _, viol, n = out
+        run.merge_violations(viol)
+        run.count("evaluations", n)
+        transitions += n * 3
     run.counters["phase_s_separators"] = round(run.elapsed(), 1)
     # E3
     two, three = script_tuples(tier)
@@ -638,7 +758,9 @@ def main(tier):
              f", each in a fresh session; (b) a de Bruijn sequence of order {order} over the alphabet ({len(seq)} calls) run as {nseg} long sessions, so every window of "
              f"{order} calls occurs after a long earlier history; every observation compared with a switch-free fresh-session reference; "
              f"(b') the derived separator preferences written one at a time: every sequence over 4 separator writes and set_mathml up to length {3 if tier == 'quick' else 5}, then set_mathml and a getter, "
-             f"against a fresh session with the final separator values; (c) {len(two)} two-thread and {len(three)} three-thread script tuples, ALL interleavings at API-call granularity under the controlled scheduler. "
+             f"against a fresh session with the final separator values; (b'') every sequence up to length 7 over (LanguageAuto=es, Language=en, Language=Auto) "
+             + ("+ LanguageAuto=sv, Language=es " if tier == "thorough" else "") + "followed by set_mathml and speech, against the canonical switch-free way into the same model state; (b3) A -> B sessions over the corpus derived from the definitions files for "
+             + ("8 chosen" if tier == "quick" else "all") + " ordered pairs of languages / braille codes (the family is shared with C15); (c) {len(two)} two-thread and {len(three)} three-thread script tuples, ALL interleavings at API-call granularity under the controlled scheduler. "
              "states = distinct reference-model states (preferences, expression, navigation commands since set, observation) reached; transitions = API calls executed; "
              "distinct_nontrivial = distinct (model state, result) pairs",
         coverage_extra={"states": len(states), "transitions": transitions, "traces_validated_against_impl": len(sessions) + nsched,
